@@ -353,6 +353,14 @@ pub fn run_case_outcome(c: &Case) -> String {
 
 /// Worker mode (run by the release binary): print one outcome line per case.
 pub fn worker(seed: u64, n: u64) -> i32 {
+    // do not outlive the checked process that started us
+    let parent = std::os::unix::process::parent_id();
+    std::thread::spawn(move || loop {
+        std::thread::sleep(std::time::Duration::from_millis(500));
+        if std::os::unix::process::parent_id() != parent {
+            std::process::exit(3);
+        }
+    });
     let threads = std::thread::available_parallelism().map(|x| x.get()).unwrap_or(8).min(16) as u64;
     let mut out: Vec<Vec<(u64, String)>> = vec![];
     std::thread::scope(|s| {
@@ -456,8 +464,8 @@ impl Monitor for C20 {
     }
     fn cases(&self, tier: Tier) -> u64 {
         match tier {
-            Tier::Quick => 24_000,
-            Tier::Thorough => 600_000,
+            Tier::Quick => 200_000,
+            Tier::Thorough => 3_000_000,
         }
     }
     fn required_counters(&self) -> Vec<&'static str> {
